@@ -82,15 +82,9 @@ def run_audit(pid, mod, load_fn, max_patches=None):
                     entry['verdict'] = 'patched tree does not compile'
                     res['stale'] += 1
                 else:
-                    prog, _stats = load_fn(lines[-1])
                     r = Report(pid, 'thorough')
                     r.config = 'quick'
-                    try:
-                        mod.run(prog, r, 'thorough', 'quick')
-                    except AnchorMissing as e:
-                        r.anchor_missing('anchor', e)
-                    except Exception as e:
-                        r.ob('engine', 'rule-evaluation', False, 'the rules could not be evaluated on this tree (%s: %s)' % (type(e).__name__, e))
+                    load_fn(pid, mod, lines[-1], r, 'thorough', 'quick')
                     fails = ['rule=%s instance=%s: %s' % (o['rule'], o['key'], o['detail'][:160]) for o in r.obligations if not o['ok']]
                     known = {k[2] for k in __import__('report').load_known() if k[0] == pid}
                     fails_new = [f for f in fails if not any(('instance=%s:' % k) in f for k in known)]
